@@ -1145,8 +1145,16 @@ class Parser:
                 # Move up a level
                 current_depth -= 1
                 if current_depth >= 0:
-                    # Add this array as an element to the parent
-                    array_stack[current_depth].append(array_expr)
+                    # This array starts an element of the parent: the element may go
+                    # on ([[1, 2].length], [[] + 1]) and ends at ',' or ']'
+                    element = self._continue_parsing_expression(
+                        array_expr, allow_sequence=False
+                    )
+                    array_stack[current_depth].append(element)
+                    if not self._check(TokenType.RBRACKET):
+                        self._expect(
+                            TokenType.COMMA, "Expected ',' or ']' after array element"
+                        )
                 else:
                     # We're done
                     return array_expr
